@@ -173,6 +173,30 @@ def run(prog, rep):
                   "Validation.%s writes %s" % (name, [repr(w) for w in bad[:3]]), f.where,
                   witness="validating changes the validated objects or shared state")
 
+    # the entry points on the model objects: obj.validate() returns a Validation and leaves obj as it was; Validation.__init__ writes
+    # its own attributes only (parameter 1 is the validated object)
+    n_entry = 0
+    for c in prog.classes.values():
+        if not c.module.name.startswith("odml") or c is vcls:
+            continue
+        f = c.methods.get("validate")
+        if f is None:
+            continue
+        n_entry += 1
+        rep.saw_function(f)
+        bad = [w for w in S.visible_writes(f) if w.origin[0] in ("P0", "GLOBAL", "FS")]
+        rep.check(not bad, "PURE-3", "%s writes nothing visible" % f.short, "ok",
+                  "%s writes %s of the object it validates: `%s` in %s%s" % (
+                      f.short, bad[0].field if bad else "", bad[0].text if bad else "", bad[0].func if bad else "",
+                      (" via " + " -> ".join(bad[0].via)) if bad and bad[0].via else ""),
+                  ("%s:%s" % (bad[0].func, bad[0].lineno)) if bad else f.where,
+                  witness="doc.validate() on a document with links: the document has other children afterwards")
+    rep.floor("PURE-3", n_entry, 1, "validate() entry points on model classes")
+    vi = vcls.lookup_method("__init__")
+    bad = [w for w in S.visible_writes(vi) if w.origin[0] in ("GLOBAL", "FS") or (w.origin[0].startswith("P") and w.origin[0] != "P0")]
+    rep.check(not bad, "PURE-3", "Validation.__init__ writes only the Validation", "ok",
+              "Validation.__init__ writes %s" % [repr(w) for w in bad[:3]], vi.where, witness="constructing a Validation changes the validated object")
+
     # ----------------------------------------------------------------- OWN-7
     rep.rule("OWN-7", "primitive writes to the class attribute Validation._handlers occur only in Validation.register_handler; "
                       "no function of the package calls register_handler (it runs at import of validation.py only); "
